@@ -372,6 +372,21 @@ func (fr *Frame) execBlock(b *ssa.BasicBlock, st0 *State) {
 		}
 		li.preSt = fr.st.clone()
 		li.iterCur = bvLitI(64, 0)
+		recvDriven := false
+		for _, hin := range li.head.Instrs {
+			if u, ok := hin.(*ssa.UnOp); ok && u.Op == token.ARROW {
+				recvDriven = true // range over a channel: every iteration waits for a message
+			}
+		}
+		if recvDriven && fr.depth == 0 && e.spec != nil && e.spec.claimsTermination() {
+			e.flag(fmt.Sprintf("loop %d is driven by a channel receive in its head: every iteration waits for a message, no measure asked", li.ord))
+		}
+		if !recvDriven && fr.depth == 0 && e.spec != nil && e.spec.claimsTermination() && (li.spec == nil || (li.spec.Decreases == nil && li.spec.Unroll == 0)) {
+			// a function that claims termination (a decreases clause on it or on one of its loops) owes a measure for each of its loops
+			e.missingVariants = append(e.missingVariants, &Obligation{ID: fmt.Sprintf("%s/variant/loop%d/missing#1", e.L.funcKeyShort(e.top), li.ord), Kind: "variant",
+				Func: e.L.funcKeyShort(e.top), Pos: e.posOf(li.head.Instrs[0].Pos()), Prefix: 1, Goal: "false", Script: []string{"(set-logic ALL)"},
+				Desc: fmt.Sprintf("loop %d of a function with a termination measure has no decreases clause of its own", li.ord)})
+		}
 		fr.checkInvariants(li, "inv-init", fr.pc, fr.st)
 		li.cands = fr.autoCandidates(li, phis)
 		for _, c := range li.cands {
